@@ -919,11 +919,6 @@ def run_build_case(spec: dict) -> dict:
                         events=[list(e[:2]) for e in res.events][-40:])
     # (d) freshness: an amend must not accept a BUILT input whose producer completed successfully after the
     # amending command had started (the consumer may have read the file before it was rebuilt)
-    producers = {}
-    if watch.samples:
-        for f_label, (st, det, creator) in watch.samples[-1][3].items():
-            if creator is not None:
-                producers[f_label] = creator
     amended = {}
     for step in model.steps:
         amended[step.cmd] = list(step.amend_inp)
@@ -931,10 +926,12 @@ def run_build_case(spec: dict) -> dict:
         for index, t_amend, name, result in run.actions:
             if name != "amend" or result is not True:
                 continue
+            sample = watch.before(t_amend + 1)
+            files_then = sample[3] if sample is not None else {}
             for path in amended.get(run.label, []):
-                prod = producers.get(path)
-                if prod is None or prod == run.label:
-                    continue
+                st, det, prod = files_then.get(path, (None, 1, None))
+                if st != BUILT or det or prod is None or prod == run.label:
+                    continue  # the freshness rule is about BUILT outputs of other steps
                 count("accepted-amends-of-built-inputs")
                 for prun in res.runs:
                     label_tags = tags.get(prun.label, [])
